@@ -32,6 +32,13 @@ CLAIMED.update({
          "Trusted: go/ssa, symgo (bufio/bytes/io interpreted), the patch-delta.c transcription in harness/C06, stubs: sync.Pool, SHA-1 as recording hash, io.Pipe as FIFO with eager producer, z3. Outside: inputs beyond the bounds; for the reader-based appliers insert commands larger than INSMAX."),
 })
 
+CLAIMED.update({
+ "C31": ("Bounded solver verdict: for every content of <= N bytes (FREE fully symbolic bytes, the rest over {CR,LF,NUL,0x1A,'a',0x7F,0x80}), every core.autocrlf value and every split of the stream into two chunks: "
+         "GetStat/IsBinary equal git's gather_stats/convert_is_binary; the bytes copyObjectToWorktree writes equal crlf_to_worktree; the blob bytes fillEncodedObjectFromFile produces equal crlf_to_git; "
+         "the status hasher announces exactly the bytes it hashes and they are git's blob; checkout-then-add of CR-free content is the identity. One genuine defect (mixed line endings converted on checkout) was found and repaired.",
+         "Trusted: go/ssa, symgo (region merging), the convert.c transcriptions in harness/C31, in-memory filesystem model, recording hash, z3. Outside: longer contents, .gitattributes, core.safecrlf, git's CR-in-index rule."),
+})
+
 NA_REASON = {
  "C05": "needs the real SHA-1 compression function on published collision blocks and Go's cross-package init order; the hash is necessarily an uninterpreted stub under symbolic execution",
  "C11": "read paths = OS filesystem + real zlib + caches over histories; solver-sized pieces are claimed under C06/C09/C10/C24",
